@@ -176,7 +176,10 @@ func mustURL(s string) *url.URL {
 func (r *recorder) Lock(c context.Context, id *url.URL) error {
 	r.yield("Lock " + us(id))
 	if r.sched != nil {
-		r.sched.acquire(r.tid, us(id))
+		if !r.sched.acquire(r.tid, us(id)) { // a lock that does not wait (timeout / cancelled request): refused, not taken
+			r.rec(entry{Kind: "lock", Name: us(id), Ans: answer{Kind: "err"}})
+			return errInjected
+		}
 	}
 	if r.fail() {
 		if r.sched != nil {
